@@ -896,8 +896,8 @@ def knot_refinement(degree, knotvector, ctrlpts, **kwargs):
     r = len(X) - 1
     n = len(ctrlpts) - 1
     m = n + degree + 1
-    a = find_span_linear(degree, knotvector, n, X[0])
-    b = find_span_linear(degree, knotvector, n, X[r]) + 1
+    a = find_span_linear(degree, knotvector, n + 1, X[0])
+    b = find_span_linear(degree, knotvector, n + 1, X[r]) + 1
 
     # Initialize new control points array
     if isinstance(ctrlpts[0][0], float):
